@@ -5,6 +5,7 @@ Tie: suite `binding`: the model's (name -> module, attribute) environment vs wha
 __init__) formatted by the import rules / format_code inside the tree; every referenced global must resolve to the same object."""
 from __future__ import annotations
 
+import ast
 import json
 import os
 import shutil
@@ -14,6 +15,7 @@ import tempfile
 from pathlib import Path
 
 import common
+import oracles
 from common import Suite
 
 TRUSTED = ["C18: importlib resolution, stdlib introspection and moving imports across statements with effects are outside the model (execution oracle only)"]
@@ -237,14 +239,150 @@ def history_oracle(ctx):
     return s
 
 
+# ---------------------------------------------------------------------------- translation validation of the import rules on import headers
+
+def import_list(src):
+    """the module's top-level import statements as model statements, in order (None if a form is outside the model)"""
+    out = []
+    for node in ast.parse(src).body:
+        if isinstance(node, ast.Import):
+            for a in node.names:
+                out.append(["plain", a.name, a.asname])
+        elif isinstance(node, ast.ImportFrom):
+            if node.level or any(a.name == "*" for a in node.names):
+                return None
+            for a in node.names:
+                out.append(["from", node.module, a.name, a.asname])
+    return out
+
+
+def used_names(src):
+    tree = ast.parse(src)
+    names = []
+    for node in tree.body:
+        if isinstance(node, (ast.Import, ast.ImportFrom)):
+            continue
+        for n in ast.walk(node):
+            if isinstance(n, ast.Name) and isinstance(n.ctx, ast.Load) and n.id not in names:
+                names.append(n.id)
+    return names
+
+
+def bound_objects(src, names):
+    """what CPython binds: the objects of `names` after executing the import statements of src"""
+    env = {}
+    header = "\n".join(ast.unparse(n) for n in ast.parse(src).body if isinstance(n, (ast.Import, ast.ImportFrom)))
+    try:
+        exec(header, env)
+    except Exception as ex:  # noqa: BLE001
+        return ("exc", type(ex).__name__)
+    return tuple(id(env[n]) if n in env else None for n in names)
+
+
+def import_root_cause(src, names):
+    """'colliding-names' when every name that changed its object is bound by two import statements of the input to different things (the recorded
+    finding: their order decides); anything else is a different violation"""
+    targets = {}
+    for st in import_list(src) or []:
+        if st[0] == "plain":
+            name, target = (st[2], st[1]) if st[2] else (st[1].split(".")[0], st[1].split(".")[0])
+        else:
+            name, target = (st[3] or st[2]), (st[1], st[2])
+        targets.setdefault(name, set()).add(target)
+    return "colliding-names" if names and all(len(targets.get(n, ())) > 1 for n in names) else "other"
+
+
+VALIDATED_RULES = ["fixes.remove_unused_imports", "fixes.fix_duplicate_imports", "fixes.sort_imports", "fixes.fix_import_spacing", "fixes.move_imports_to_toplevel", "format_code"]
+
+
+def import_validate_suite(ctx):
+    """every output of the real import rules on generated import headers is validated by the model: the names the module uses are bound to the same
+    objects before and after (C18.import_rewrite_check_sound); a rejected rewrite is executed to see what CPython binds"""
+    import pyrefact
+
+    s = Suite("import-validate", kind="oracle")
+    corr = Suite("import-validate-model")
+    r = ctx.rng("import-validate")
+    progs = []
+    uses = {"os": "os.sep", "p": "p.sep", "js": "js.dumps", "path": "path.sep", "s": "s", "dumps": "dumps", "join": "join", "j": "j", "collections": "collections.abc", "abc": "abc.Sized", "x": "x", "json": "json.dumps", "math": "math.pi"}
+    for _ in range(ctx.n(260, 3000)):
+        stmts = [r.choice(STMTS) for _ in range(r.randint(1, 6))]
+        if r.random() < 0.3:
+            stmts.append(r.choice(stmts))  # an exact duplicate
+        if r.random() < 0.3:
+            stmts.insert(0, ("plain", "json", None))
+        if r.random() < 0.3:
+            stmts.append(("plain", "math", None))
+        bound = []
+        for st in stmts:
+            b = (st[2] or st[1].split(".")[0]) if st[0] == "plain" else (st[3] or st[2])
+            if b not in bound:
+                bound.append(b)
+        used = [b for b in bound if r.random() < 0.6] or bound[:1]
+        lines = [stmt_text(st) for st in stmts]
+        if r.random() < 0.25:  # stacked spelling of neighbouring plain imports
+            lines = [", ".join(lines[:2]).replace(", import ", ", ")] + lines[2:] if len(lines) > 1 and all(l.startswith("import ") for l in lines[:2]) else lines
+        body = "".join(f"print({uses[u]} is not None)\n" for u in used)
+        progs.append("\n".join(lines) + "\n\n" + body)
+    progs = list(dict.fromkeys(progs))
+    reqs, metas = [], []
+    for src in progs:
+        try:
+            before = import_list(src)
+            used = used_names(src)
+        except SyntaxError:
+            continue
+        if before is None:
+            continue
+        for rule in VALIDATED_RULES:
+            try:
+                out = pyrefact.format_code(src) if rule == "format_code" else oracles.resolve_rule(rule)(src)
+                after = import_list(out)
+                used_after = used_names(out)
+            except Exception:  # noqa: BLE001  (C03 / C04 look at these)
+                continue
+            if after is None or out == src:
+                continue
+            if used_after != used:
+                continue  # the rule rewrote the uses as well: outside this validator
+            reqs.append({"suite": "importcheck", "before": before, "after": after, "used": used})
+            metas.append((src, rule, out, used))
+    answers = ctx.driver.ask(reqs)
+    for (src, rule, out, used), ans in zip(metas, answers):
+        s.cases += 1
+        corr.cases += 1
+        s.count(rule)
+        s.nt([src, rule])
+        real_same = bound_objects(src, used) == bound_objects(out, used)
+        if ans.get("agree") is True:
+            s.count("validated by the theorem")
+            if not real_same:
+                corr.disagreements.append({"src": src, "rule": rule, "out": out, "what": "the model accepts an import rewrite after which CPython binds another object"})
+            continue
+        s.count("rejected by the validator")
+        if real_same:
+            corr.disagreements.append({"src": src, "rule": rule, "out": out, "differ": ans.get("differ"), "what": "the model rejects an import rewrite that CPython does not distinguish"})
+        else:
+            s.disagreements.append({"sha": oracles.sha(src), "src": src, "rule": rule, "out": out, "names": ans.get("differ"), "client": "import-validate", "root": import_root_cause(src, ans.get("differ") or []),
+                                    "what": f"{rule}: after the rewrite of the import statements the used name(s) {ans.get('differ')} are bound to another object (or to none)"})
+    s.samples.append({"suite": "import-validate", "before": ["import os", "import json"], "after": ["import os"], "used": ["os"], "agree": True})
+    s.note = ("generated import headers (1-8 statements over 15 stdlib forms: dotted, aliased, from-imports, colliding aliases, exact duplicates, stacked spelling) followed by uses of a random subset of the bound names: "
+              "every changed output of remove_unused_imports, fix_duplicate_imports, sort_imports, fix_import_spacing, move_imports_to_toplevel and format_code is handed to the model's validator (agreeOn: the used names are bound "
+              "to the same objects before and after, C18.import_rewrite_check_sound); a rejected rewrite is executed: another object bound = violation; non-trivial = every validated rewrite")
+    corr.note = "same rewrites: the validator's verdict vs what CPython binds for the used names (identity of the bound objects) - ties the verdicts of the model to the interpreter"
+    return [s, corr]
+
+
 def suites(ctx):
     common.import_pyrefact()
-    return [binding_suite(ctx), tree_oracle(ctx), history_oracle(ctx)]
+    return [binding_suite(ctx), tree_oracle(ctx), history_oracle(ctx)] + import_validate_suite(ctx)
 
 
 def match_known(d, known):
     for k in known:
         w = k.get("witness", {}) if k["kind"] == "finding" else {}
+        if k["kind"] == "finding" and k["id"] == "import-order-colliding-names" and d.get("client") == "import-validate" and d.get("root") == "colliding-names":
+            return k
         if w and w.get("client") == d.get("client") and w.get("rule") == d.get("rule"):
             return k
     return None
@@ -255,8 +393,24 @@ def search(ctx, breaks):
     return (tree_oracle(ctx).disagreements + history_oracle(ctx).disagreements)[:5]
 
 
+def replay_witness(ctx, kf):
+    common.import_pyrefact()
+    w = kf["witness"]
+    if "src" not in w or "names" not in w:
+        return None
+    out = oracles.resolve_rule(w["rule"])(w["src"])
+    return bound_objects(w["src"], w["names"]) != bound_objects(out, w["names"])
+
+
 def replay(ctx, inp):
     common.import_pyrefact()
+    if inp.get("client") == "import-validate":
+        import pyrefact
+
+        out = pyrefact.format_code(inp["src"]) if inp["rule"] == "format_code" else oracles.resolve_rule(inp["rule"])(inp["src"])
+        names = inp.get("names") or used_names(inp["src"])
+        print(out)
+        return bound_objects(inp["src"], names) != bound_objects(out, names)
     ds = [d for d in tree_oracle(ctx).disagreements if d["client"] == inp.get("client") and d["rule"] == inp.get("rule")]
     print(ds[:1])
     return bool(ds)
